@@ -1832,7 +1832,7 @@ class Rule(metaclass=LogicalType):
                     constraint_value=cls.min_contains,
                 )
             )
-        elif cls.max_contains and contains > cls.max_contains:
+        elif cls.max_contains is not None and contains > cls.max_contains:
             context.handle_error(
                 exc.ConstraintError(
                     f"value contains {contains} of {cls.contains}, which is bigger than max_contains",
